@@ -1005,17 +1005,10 @@ impl<Id: EntityId> PropertyColumn<Id> {
 
         match op {
             CompareOp::Eq => self.zone_map.might_contain_equal(value),
-            CompareOp::Ne => {
-                // Can only skip if all values are equal to the value
-                // (which means min == max == value)
-                match (&self.zone_map.min, &self.zone_map.max) {
-                    (Some(min), Some(max)) => {
-                        !(compare_values(min, value) == Some(Ordering::Equal)
-                            && compare_values(max, value) == Some(Ordering::Equal))
-                    }
-                    _ => true,
-                }
-            }
+            // Never skip on `<>`: min == max == value only describes the values the zone map
+            // could order. Nulls and values of another type are not reflected in min/max, yet
+            // the filter evaluates `<>` to true for them, so skipping would drop rows.
+            CompareOp::Ne => true,
             CompareOp::Lt => self.zone_map.might_contain_less_than(value, false),
             CompareOp::Le => self.zone_map.might_contain_less_than(value, true),
             CompareOp::Gt => self.zone_map.might_contain_greater_than(value, false),
